@@ -5,6 +5,7 @@ import (
 	"fmt"
 	"sort"
 	"strconv"
+	"strings"
 	"sync/atomic"
 	"time"
 
@@ -344,6 +345,12 @@ func (r *Run) Signal(ref string) {
 	r.P.ConsumeEvent(event.NewSignalEvent(ref))
 }
 func (r *Run) Message(ref string) {
+	// "m#op": message m carrying operation reference op
+	if j := strings.Index(ref, "#"); j >= 0 {
+		op := ref[j+1:]
+		r.P.ConsumeEvent(event.NewMessageEvent(ref[:j], &op))
+		return
+	}
 	r.P.ConsumeEvent(event.NewMessageEvent(ref, nil))
 }
 
